@@ -48,7 +48,7 @@ PROPS = {
         assumptions=["reading fixed in DESIGN.md section 8: a string not of the two documented forms (e.g. a default without `|`, or `|` without a default) is 'every other string' and must stay untouched",
                      "DEFAULT is non-empty, on one line (no LF), without blanks at either end; whitespace is RE2 \\s = space, tab, LF, CR, FF; 'surrounding double quotes stripped' = all leading and trailing \" removed (README: any \" characters are trimmed)",
                      "documents of the domain have no switch below a switch of the same dimension and no empty maps (both are C03 findings; generated only in the out-of-domain stream)"],
-        level_text="Machine-checked Lean 4 theorems (kernel-only axioms). match_iff_grammar: for EVERY string, the matcher that mirrors the anchored pattern captures (NAME, DEFAULT) exactly when the string is `${{ env: NAME }}` / `${{ env: NAME | DEFAULT }}` with optional inner whitespace (sound and complete, grammar unambiguous); hence MatchAndResolve is exactly the property's four cases (resolveStr_meets_spec, spec_determines_resolveStr: set -> value, unset+default -> default with quotes stripped, unset -> error, every other string untouched). Documents: parseTemplatedElements is the pointwise lift over map values and list items (any depth), and FromBytes = reduce-then-substitute depends on the environment only through variables of templates on the branches selected by the dimension (load_only_selected_branches, load_fails_iff): an unset variable on an unselected branch cannot fail loading. The pinned-commit pattern (optional `|`) is kept as matchTemplateLegacy with decide-checked violation witnesses. Tied to /repo by differential execution: captures of the package's own pattern under Go's regexp, MatchAndResolve through FromBytes+Get[string] under unset/set/empty environments, and generated documents with one-dimension switches through FromBytes/Get.",
+        level_text="Machine-checked Lean 4 theorems (kernel-only axioms). match_iff_grammar: for EVERY string, the matcher that mirrors the anchored pattern captures (NAME, DEFAULT) exactly when the string is `${{ env: NAME }}` / `${{ env: NAME | DEFAULT }}` with optional inner whitespace (sound and complete, grammar unambiguous); hence MatchAndResolve is exactly the property's four cases (resolveStr_meets_spec, spec_determines_resolveStr: set -> value, unset+default -> default with quotes stripped, unset -> error, every other string untouched). Documents: parseTemplatedElements is the pointwise lift over map values and list items (any depth), and FromBytes = reduce-then-substitute depends on the environment only through variables of templates on the branches selected by the dimension (load_only_selected_branches, load_fails_iff): an unset variable on an unselected branch cannot fail loading; the outcome does not depend on Go's map iteration order (resolveKvs_order_independent). The pinned-commit pattern (optional `|`) is kept as matchTemplateLegacy with decide-checked violation witnesses. Tied to /repo by differential execution: captures of the package's own pattern under Go's regexp, MatchAndResolve through FromBytes+Get[string] under unset/set/empty environments, and generated documents with one-dimension switches through FromBytes/Get.",
         level_note="Trusted: Lean kernel + standard axioms; Go's regexp engine and yaml.v3; the Go harness and the Lean driver. The matcher is a hand-written denotation of the pattern, tied to it by the differential run (random grammar strings and near-misses + all strings up to length 3 (quick) / 5 (thorough) over a 9-symbol alphabet spliced into 6 positions), not by a verified regex semantics. The dimension reduction is modelled for one dimension only (general case: C03).",
         technique="Lean 4 proof (list-splitting lemmas for the anchored pattern, structural/mutual induction over document trees) + differential correspondence against regexp and FromBytes/Get",
         explanation="matcher <-> documented grammar for all strings; substitution pointwise; selection-then-substitution only reads selected branches; legacy optional-`|` witnesses kept",
